@@ -32,12 +32,16 @@ def model_case(case, impl):
         f = case.split(" ")
         b1, b2, _ = impl.split(";", 2)
         return " ".join(f[:7] + [b1, b2, f[7]])
+    if case.startswith("c12.select"):
+        return case + " " + impl.split(";", 1)[0] if ";" in impl else None
     if impl in ("regex-error", "client-error"):
         return None
     return case
 
 
 def impl_view(case, impl):
+    if case.startswith("c12.select"):
+        return impl.split(";", 1)[1] if ";" in impl else impl
     if case.startswith("c03.e2e"):
         return impl.split(";", 2)[2] if impl.count(";") >= 2 else impl
     return impl
@@ -108,6 +112,17 @@ def gen(rng, budget, tier):
             content = b"\n".join(rng.sample(lines, rng.randrange(1, len(lines)))) + b"\n"
             yield (f"c03.e2e 1024 {rng.choice([0, 1, 2])} {rng.choice([0, 1, 2])} {rng.choice([0, 1, 3])} "
                    f"{rng.randrange(2)} {hexs(pat)} {hexs(content)}")
+            continue
+        if r < 0.2:
+            # several requests decoded in one process, evaluated afterwards: the same expression with both
+            # polarities, noop patterns in between (state shared between decodes must not leak)
+            pool = [b"a", b"ERROR", b"[ab]", b"x y", b"\\s", b".", b".*", b"k=v", b"caf\xc3\xa9", b"a;b", b"(?i)error", b"^a", b"b$"]
+            pats = [rng.choice(pool) for _ in range(rng.choice([1, 2, 2, 3]))]
+            reqs = []
+            for _ in range(rng.choice([2, 3, 4, 6])):
+                reqs.append(f"{rng.randrange(2)}:{hexs(rng.choice(pats))}")
+            lines = [b"a b", b"ERROR 42", b"error", b"x y", b"", b"k=v", b"caf\xc3\xa9", b"a;b", b"zzz", b"ab"]
+            yield f"c12.select {','.join(hexs(l) for l in rng.sample(lines, rng.randrange(2, len(lines))))} {';'.join(reqs)}"
             continue
         mode = rng.choice(["grep", "grep", "cat", "tail"])
         if mode == "cat":
